@@ -328,6 +328,29 @@ def check_function_export(ctx, cid, api, meshio, cal, grid, mesh, rng, kind, deg
         vals = np.array(gf.evaluate_on_vertices() if loc == "node" else gf.evaluate_on_element_centers())
     if vals is None:
         return
+    if loc == "node" and gf is not None and not single:
+        # what "its vertex values" are (docstring of evaluate_on_vertices: weighted average of the element values at the
+        # vertex, weights = element areas, cf. C13): recomputed here from pointwise evaluate() and the raw geometry, so that
+        # the file is compared with the function and not only with the routine that feeds the writer
+        with ctx.guard(cid, "grid_function:%s:vertex_values" % sname):
+            corners = np.array([[0.0, 1.0, 0.0], [0.0, 0.0, 1.0]])
+            acc = np.zeros(vals.shape, dtype=complex)
+            wsum = np.zeros(vals.shape[1])
+            P = V[:, E]   # (3 coords, 3 local, ne)
+            area = 0.5 * np.linalg.norm(np.cross((P[:, 1] - P[:, 0]).T, (P[:, 2] - P[:, 0]).T), axis=1)
+            for e in np.flatnonzero(np.asarray(gf.space.support)):
+                lv = np.asarray(gf.evaluate(int(e), corners))
+                for i in range(3):
+                    acc[:, E[i, e]] += lv[:, i] * area[e]
+                    wsum[E[i, e]] += area[e]
+            used = wsum > 0
+            ref_v = np.zeros_like(acc)
+            ref_v[:, used] = acc[:, used] / wsum[used]
+            dev_v = float(np.abs(ref_v - vals).max() / max(np.abs(ref_v).max(), 1e-300))
+            ctx.count("vertex_value_models_compared")
+            if dev_v > 1e-12:
+                ctx.violation("grid_function:%s:vertex_values:not_area_weighted_average" % sname, "%s: evaluate_on_vertices() differs from the area-weighted average of the element values at the "
+                              "vertices by %.3e (relative to max |value|)" % (cid, dev_v), cid, data)
     if single:
         # the model works in double precision on the (exactly converted) single-precision values; real / imag / None are
         # still exact, formulas evaluated by the library in single precision get a single-precision slack
